@@ -14,10 +14,15 @@ PROPS = {
         models=[
             dict(name="ccontainer", pkg="./ccontainerx", test="TestCContainer", coq_mod="CContainer.Spec", run_check="run_check_ccontainer",
                  corpus="ccontainer", quick_n=2000, thorough_n=200000, nontrivial=_nt, tags="",
-                 rule="implementation-driven random gate-level histories on a CContainer[uint64] (config: one of 5 equality functions incl. none / "
-                      "mod 2 / always equal / asymmetric a<=b / div 4, initial value): GetValue, SetValue v, SwapValue with callback nil | +k | "
+                 rule="implementation-driven random gate-level histories on a CContainer[uint64] (config: one of 7 equality functions incl. none / "
+                      "mod 2 / always equal / asymmetric a<=b / div 4 / the NON-REFLEXIVE never-equal and a<b, initial value) or on a "
+                      "ccontainer.NewCContainerVT container over a pointer type with an EqualVT method (nil = empty, every value freshly allocated: "
+                      "equal but not identical pointers), both driven through one adapter: GetValue, SetValue v, SwapValue with callback nil | +k | "
                       "const k | identity, waiters WaitValue | WaitValueChange old | WaitValueEmpty | WaitValueWithValidator (5 validator families "
-                      "incl. nil and error-returning) with or without error channel, ccontainer.WatchChanges(initial, ToWatchable(ctr), cb) watchers (initial "
+                      "incl. nil and error-returning) with or without error channel, each waiter / watcher context of a flavour that is part of the event "
+                      "(plain WithCancel / ends like a deadline, Err()=DeadlineExceeded / cancelled with a cause; 1 call in 12 with a context that has already "
+                      "ended) and the returned error classified by identity (context.Canceled, context.DeadlineExceeded, the cause, the error channel's, "
+                      "the validator's, other), ccontainer.WatchChanges(initial, ToWatchable(ctr), cb) watchers (initial "
                       "empty / non-empty, equal / unequal to the content; the callback parks and returns nil or an error as the history says; "
                       "cancel / error-channel events also while inside the callback); one critical section at a time, waiters additionally parked "
                       "between their sampling section and the select; context cancellations; error channel nil / error / close; + corpus; "
@@ -25,11 +30,14 @@ PROPS = {
         ],
         trusted=SCHED_TRUSTED + [
             "user callbacks (equality, SwapValue callback, validator) are pure functions from small coded families, mirrored in Gallina (eq_of_code, apply_f, validator)",
+            "context flavours come from harness/hctx: the deadline-like context is a cancel context whose Err() reports context.DeadlineExceeded once it has ended (no clock involved), the with-cause context is context.WithCancelCause",
+            "the NewCContainerVT container holds *msg{id}; EqualVT compares ids; the harness adapter maps the history's number v to a freshly allocated &msg{id: v} (0 to nil) and back, so proto.IsEqualVT on the elements is equality of the numbers (eq_of_code 7)",
             "the WatchChanges callback is harness-owned: it records its argument, parks (ctl.ParkUser) and returns nil or one fixed error as the history prescribes (model event CbRet)",
         ],
         assumptions=[
             "the harness realises the eager schedule (a blocked waiter whose select has a ready case runs to its next gate at once); the theorems cover every placement of wake-ups (Wake / CancelWake / ErrWake are separate events)",
             "'two select cases ready' (Go chooses at random) is covered by the theorems but never produced by the harness: a waiter never has a cancelled context and a pending error-channel item together, and is parked between sample and select only when neither is pending",
+            "'the context's error' is read as ctx.Err() of the ended context (Canceled for a plain or with-cause context, DeadlineExceeded for a deadline context); a closed error channel yields the literal context.Canceled (the code's documented treatment); clauses 6 / 9 / 10 require every returned error identity to be that of a source that fired; returning context.Cause(ctx) for a with-cause context is accepted by the monitors (its source fired) but differs from the model (correspondence)",
             "liveness ('never remain blocked while the content satisfies the condition') is stated as quiescence safety on top of the no-lost-wake-up invariant",
             "WatchChanges is modelled as rounds of the WaitValueChange(current) waiter followed by the callback; there is no schedule point between the callback's return and the next round's HoldLock entry gate, so a round's 'held' values start at the content present when the callback returns; that WatchChanges returns the callback's error unchanged is compared through the correspondence (status 11) and is not a monitor clause (not C15 text)",
             "c15_swap_no_lost_update assumes the equality function never identifies v and v+1 (otherwise SwapValue by design does not store); all other theorems assume nothing about the equality function",
@@ -39,7 +47,8 @@ PROPS = {
                  "function: each critical section of Get/Set/Swap is one step of the sequential cell and the section order is a linearization "
                  "(c15_section_is_cell_step, c15_cell_linearizable), N SwapValue(+1) from any interleaving end at +N (c15_swap_no_lost_update), a waiter "
                  "returns only a value the cell held during the call and that satisfies its condition, no-lost-wake-up invariant and quiescence "
-                 "(no waiter blocked while the content satisfies its condition), errors only from a source that fired; WatchChanges: every callback "
+                 "(no waiter blocked while the content satisfies its condition), errors only from a source that fired and with that source's identity "
+                 "(the ctx.Done case returns ctx.Err(): Canceled or DeadlineExceeded by the flavour of the context, a closed error channel the literal Canceled); WatchChanges: every callback "
                  "invocation gets a value held during that round's wait and different from current, no watcher blocked at quiescence while the content "
                  "differs from current, it returns only an error whose source fired or the callback's own (c15_watch_*, c15_watcher_*). Model tied to the code by "
                  "scheduled differential correspondence: the harness drives the real container one critical section at a time (synctest), with an extra "
